@@ -92,6 +92,16 @@ Definition release_key (r : rstate) (key ty : N) : rstate :=
     end in
   if ty =? TT_Timeout then r1 else remove_ask r1 key.
 
+(* the model follows the placeholder's release link by key through the request list; the code follows a pointer. The two
+   agree unless the linked real ask has been taken out of the requests while the swap was in flight (then the code still
+   adds the allocation, with resources the observation no longer shows): such steps are outside the model *)
+Definition release_modelled (r : rstate) (key ty : N) : bool :=
+  match find_alloc (rs_allocs r) key with
+  | Some x => negb ((ty =? TT_PlaceholderReplaced) && negb (oa_release x =? 0)) ||
+              match find_alloc (rs_requests r) (oa_release x) with Some _ => true | None => false end
+  | None => true
+  end.
+
 (* reachability along documented moves *)
 Fixpoint doc_path (s : N) (l : list N) (d : N) : bool :=
   match l with
